@@ -55,6 +55,9 @@ class WSPeer:
         self.parse_error = False
         self._pending: List[Any] = []
         self._np = 0
+        self._raw = bytearray()      # the server's bytes, scanned frame by frame independently of wsproto
+        self._raw_closes = 0
+        self._raw_bad = ""
 
     # -- handshake result ----------------------------------------------------------------------
     def accept_response(self, headers: List[List[str]]) -> None:
@@ -235,9 +238,43 @@ class WSPeer:
         return self._out(data, st.get("cuts"))
 
     # -- observing ------------------------------------------------------------------------------
+    def _scan_raw(self, data: bytes) -> None:
+        """Frame headers as the server wrote them: close frames really sent, reserved bits set without a
+        negotiated extension, unknown opcodes, masked server frames."""
+        self._raw += data
+        while len(self._raw) >= 2:
+            b0, b1 = self._raw[0], self._raw[1]
+            n, pos = b1 & 0x7F, 2
+            if n == 126:
+                if len(self._raw) < 4:
+                    return
+                n, pos = int.from_bytes(self._raw[2:4], "big"), 4
+            elif n == 127:
+                if len(self._raw) < 10:
+                    return
+                n, pos = int.from_bytes(self._raw[2:10], "big"), 10
+            if b1 & 0x80:
+                pos += 4
+                self._raw_bad = self._raw_bad or "masked frame from the server"
+            if len(self._raw) < pos + n:
+                return
+            opcode, rsv = b0 & 0x0F, (b0 >> 4) & 0x07
+            if rsv and not (self.deflate is not None and rsv == 4 and opcode in (1, 2)):
+                self._raw_bad = self._raw_bad or "reserved bits %d set on opcode %d" % (rsv, opcode)
+            if opcode not in (0, 1, 2, 8, 9, 10):
+                self._raw_bad = self._raw_bad or "unknown opcode %d" % opcode
+            if opcode == 8:
+                self._raw_closes += 1
+            del self._raw[: pos + n]
+
     def on_wire(self, data: bytes) -> None:
         log = self.sess.trace.log
         if self.conn is None or self.parse_error:
+            return
+        self._scan_raw(data)
+        if self._raw_bad:
+            self.parse_error = True
+            log("wire", kind="error", app=self.rid, why="websocket frame: %s" % self._raw_bad)
             return
         self.conn.receive_data(data)
         try:
@@ -272,6 +309,11 @@ class WSPeer:
             elif isinstance(ev, Ping):
                 log("wire", kind="ws_ping", app=self.rid)
             elif isinstance(ev, CloseConnection):
+                if self._raw_closes == 0:
+                    # wsproto reports its own parse failures as a close event: the server sent no close frame
+                    self.parse_error = True
+                    log("wire", kind="error", app=self.rid, why="wsproto client: %s" % str(ev.reason)[:60])
+                    return
                 self.closed_seen = True
                 log("wire", kind="ws_close", app=self.rid, code=int(ev.code))
 
